@@ -59,7 +59,7 @@ Section Mono.
   Proof.
     intros L c vs s H. unfold construct in *.
     destruct (find_c (p_classes P) c); [|reflexivity].
-    destruct (find_m (c_methods c0) init_name); [|reflexivity].
+    destruct (find_meth (p_classes P) c0 init_name); [|reflexivity].
     destruct (m_body m); [|reflexivity].
     destruct (m_static m); [reflexivity|].
     eapply bind_le; [exact H | intro; apply run_code_le; assumption |].
@@ -80,7 +80,7 @@ Section Mono.
     intros L o m vs s H. unfold call_method in *.
     destruct (class_of (fst s) o); [|reflexivity].
     destruct (find_c (p_classes P) n); [|reflexivity].
-    destruct (find_m (c_methods c) m); [|reflexivity].
+    destruct (find_meth (p_classes P) c m); [|reflexivity].
     destruct (m_static m0); [reflexivity|]. apply run_body_le; assumption.
   Qed.
 
